@@ -471,6 +471,83 @@ def generator_reuse_stage(self, key):
                           "case": [l for l in lines if l.startswith(k + ".shared ")][0]})
 
 
+def order_independence_stage(self, key):
+    """every call is a function of its arguments: a mixed bag of calls (factorizations of networks that are rewirings of
+    each other - same vertices, layers, number of edges, same buffer sizes -, argument validations, graph constructions,
+    file readers on equally long files, initialisers) executed in one process in one order, in the reverse order, and
+    one by one in fresh processes must give the same answer call by call.  Catches whatever is carried from call to
+    call inside the library (static or thread-local caches, memoised sizes, buffers that keep their shape)."""
+    rng = self.rng
+    from .common import hexbytes
+    lines = []
+    nb = 4 if self.tier == "quick" else 24
+    for b in range(nb):
+        directed, assort, init = rng.choice(ALL_VARIANTS)
+        base = random_run(rng, variants=[(directed, assort, init)], ltwt=("u", "u"), r=rng.randint(1, 3),
+                          maxit=rng.choice([1, 3, 11, 21]), nconv=rng.choice([1, 2, 10]), heavy=False)
+        labs = gen.first_appearance(base.recs)
+        for j in range(3):
+            # rewirings: targets rotated by j positions in the label list (same N, L, E, same vector lengths)
+            mp = dict(zip(labs, labs[j:] + labs[:j]))
+            d = dict(base.__dict__)
+            d["recs"] = [(s0, mp[t0], ws) for s0, t0, ws in base.recs]
+            rc = RunCase(**d)
+            lines.append(rc.line("oi%d.run%d" % (b, j)))
+            lines.append(gen.case_net("oi%d.net%d" % (b, j), directed, "u", rc.recs, rc.L, "u"))
+            # the same problem under the other variants of direction
+            d2 = dict(d)
+            d2["directed"] = not directed
+            lines.append(RunCase(**d2).line("oi%d.flip%d" % (b, j)))
+        # argument validations with equal vector lengths and different numbers of distinct labels
+        ne = rng.randint(2, 5)
+        for nd in range(1, 5):
+            for usz in (nd * base.K, (nd + 1) * base.K):
+                lines.append("oi%d.val%d_%d validate %d %d r %d %d %d %d %d %d 1 1 1"
+                             % (b, nd, usz, int(directed), int(assort), ne, ne, ne * base.L,
+                                (base.K if assort else base.K * base.K) * base.L, nd, usz))
+        # readers on files of equal length
+        for j in range(3):
+            recs = [(rng.randint(0, 9), rng.randint(0, 9), [rng.randint(0, 3) for _ in range(2)]) for _ in range(4)]
+            lines.append("oi%d.radj%d readadj %s" % (b, j, hexbytes("".join("%d %d %s\n" % (s0, t0, " ".join(map(str, ws))) for s0, t0, ws in recs))))
+            K = 2
+            lines.append("oi%d.raff%d readaff 0 %d %d %s" % (b, j, K, K * K * 2, hexbytes("".join("%d 0.%d 0.%d\n" % (a, rng.randint(1, 9), rng.randint(1, 9)) for a in ([0, 1] if j != 1 else [1, 0])))))
+        ds = [rng.random() for _ in range(7)]
+        aff = [rng.random() for _ in range(2 * 2 * 2)]
+        for j in range(2):
+            lines.append(" ".join(["oi%d.init%d" % (b, j), "initf", "f", "0", "2", "2", str(j + 1)] + gen.flist(ds) + gen.flist(aff[j:] + aff[:j])))
+    if not self.bdir:
+        return
+    fwd, cr1 = C.run_impl(self.bdir, lines)
+    rev, cr2 = C.run_impl(self.bdir, lines[::-1])
+    for cid, line, err, code in cr1 + cr2:
+        self.on_crash("history", cid, line, err, code)
+    sample = rng.sample(lines, min(len(lines), 25 if self.tier == "quick" else 120))
+    alone = {}
+    for l in sample:
+        o, cr = C.run_impl(self.bdir, [l])
+        alone.update(o)
+    self.cov["evaluations"] += 2 * len(lines) + len(sample)
+    skip = ("duration",)
+    for l in lines:
+        cid = l.split(" ", 1)[0]
+        a = fwd.get(cid)
+        if a is None:
+            continue
+        self.monitor("calls compared across execution orders")
+        self.nontrivial(("order", l))
+        for name, other in (("executed in the reverse order", rev.get(cid)), ("executed alone in a fresh process", alone.get(cid))):
+            if other is None:
+                continue
+            diff = [f for f in sorted(set(a) | set(other)) if f not in skip and a.get(f) != other.get(f)]
+            if diff:
+                pos = lines.index(l)
+                self.violate(key, "call %s (%s) answers differently when %s than after the %d calls that preceded it in one process: %s differ"
+                             % (cid, l.split(" ")[1], name, pos, ",".join(diff[:6])),
+                             {"case": l, "history_same_process": lines[max(0, pos - 40):pos], "differing_fields": diff,
+                              "after_history": {f: a.get(f) for f in diff[:4]}, "otherwise": {f: other.get(f) for f in diff[:4]}})
+                return
+
+
 class C07(Check):
     pid = "C07"
     lean_modules = ["MTProps.C07", "MTProps.CodeRun", "MTProps.CodeMain"]
@@ -553,6 +630,7 @@ class C07(Check):
                         break
         solver_reuse_stage(self, "solver-object-state")
         generator_reuse_stage(self, "generator-object-state")
+        order_independence_stage(self, "call-order-dependent")
         self.sample({"history": [l.split(" ")[0] for l in lines[:12]], "priors": [str(p) for p in priors]})
         self.cov["rule"] = ("histories in one process: the same call under 5 different prior contents of the output containers (0, 5, -5, NaN, 1e300) and 5 prior shapes of the unvalidated in-membership container (N x K, K x N, NK x 1, empty, (N+1) x K), "
                             "in shuffled order, interleaved with unrelated calls of other variants, then repeated, then in a fresh process; one Solver object run on two problems vs a fresh one; "
